@@ -22,12 +22,11 @@ import c15_gen as gen
 from common import cstr, clist, cfloat, copt, cpair, cz
 
 THEOREMS = ['C15_tokens_of_appended_options', 'C15_keywords_prefix',
-            'C15_keywords_later_wins', 'C15_like_chain_text',
-            'C15_like_equals_expanded', 'C15_like_imp_refuted',
-            'C15_like_mat_void', 'C15_like_re_recognises',
+            'C15_keywords_later_wins', 'C15_importance_per_particle',
             'C15_split_like_card', 'C15_split_then_like_re',
-            'C15_keywords_later_wins_any_scalar', 'C15_chain_depth',
-            'C15_like_in_parse_all', 'C15_replace_like_card']
+            'C15_like_re_recognises', 'C15_like_chain_text', 'C15_chain_depth',
+            'C15_like_in_parse_all', 'C15_replace_like_card', 'C15_expand_all',
+            'C15_like_equals_expanded', 'C15_like_mat_void']
 TRUSTED = [
     'hand-written model coq/C15/Model.v (modelled, tied by execution only)',
     'environment of the model, filled per deck from the repository\'s own '
@@ -51,7 +50,6 @@ HEADER = ('From Coq Require Import List NArith ZArith Bool String Ascii '
           'PrimFloat.\nFrom T4V Require Import Base.Str Base.Scalar '
           'C15.Model C15.Exec.\nOpen Scope string_scope.\n')
 
-KNOWN_CLASS = 'like_but_imp_max'
 
 
 # ---------------------------------------------------------------------------
@@ -337,7 +335,6 @@ def sweep_deck(res, deck, text, rng, do_points):
     failures = []
     expanded = gen.expand(deck)
     text_exp = gen.render(expanded)
-    dec = gen.imp_decreasing_cells(deck)
     conv_like = impl.convert(text, keep_stdout=False)
     conv_exp = impl.convert(text_exp, keep_stdout=False)
     if conv_like.ok != conv_exp.ok or \
@@ -346,19 +343,9 @@ def sweep_deck(res, deck, text, rng, do_points):
                          f'expansion: {conv_exp}', None))
     elif conv_like.ok and strip_header(conv_like.text) != \
             strip_header(conv_exp.text):
-        cls = None
-        if dec:
-            conv_max = impl.convert(gen.render(gen.expand(deck, 'max')),
-                                    keep_stdout=False)
-            if conv_max.ok and strip_header(conv_max.text) == \
-                    strip_header(conv_like.text):
-                cls = KNOWN_CLASS
         failures.append(('file', 'the written file of the LIKE deck differs '
-                         'from the written file of its explicit expansion'
-                         + (f' (cells {dec}: BUT IMP lower than the '
-                            'inherited card importance)'
-                            if cls == KNOWN_CLASS else '')
-                         , cls))
+                         'from the written file of its explicit expansion',
+                         None))
     # parsed cells, field by field
     obs_like = ImplDeck(text)
     obs_exp = ImplDeck(text_exp)
@@ -369,15 +356,9 @@ def sweep_deck(res, deck, text, rng, do_points):
     if obs_like.setup_error is None and obs_exp.setup_error is None:
         diffs = diff_cells(obs_like, obs_exp)
         if diffs:
-            cls = None
-            if dec and not diff_cells(obs_like, obs_exp, ignore_importance=dec):
-                by_id = {c['id']: c for c in deck['cells']}
-                cells = obs_like.result[1]
-                if all(cells[k].importance ==
-                       gen.chain_max_importance(by_id, k) for k in dec):
-                    cls = KNOWN_CLASS
             failures.append(('parsed', 'parsed cells of the LIKE deck differ '
-                             f'from its explicit expansion: {diffs[:4]}', cls))
+                             f'from its explicit expansion: {diffs[:4]}',
+                             None))
         # generator's own reading of get_cells and of the geometry
         by_id = {c['id']: c for c in deck['cells']}
         for cell in deck['cells']:
@@ -416,6 +397,17 @@ def points_check(deck, expanded, conv_like, conv_exp, rng):
         if fill is not None and fill.get('tr') is not None \
                 and r.get('trcl') is not None:
             return []      # mcnpref gives no verdict for TRCL + fill transform
+    # mcnpref replaces the whole IMP dictionary on override: give it the
+    # per-particle result
+    import copy
+    deck = copy.deepcopy(deck)
+    by_id2 = {c['id']: c for c in deck['cells']}
+    merged = {c['id']: gen.resolve(by_id2, c['id']).get('imp')
+              for c in deck['cells'] if c.get('like') is not None
+              and 'imp' in c.get('but', {})}
+    for c in deck['cells']:
+        if c['id'] in merged:
+            c['but']['imp'] = merged[c['id']]
     pts = []
     for _ in range(60):
         slot = gen.SLOTS[rng.randrange(25)]
@@ -464,7 +456,9 @@ EDGE_BUT = [
     'mat=2 mat=3', 'mat=2 rho=-1.0 mat=3 rho=-2.0',
     'vol=3', 'tmp=2.5e-8', 'nonu=1', 'pwt=3', 'ext:n=0.5', 'dxc=1',
     'imp:n=1 imp:n=0', 'imp:n=0 imp:n=1', 'imp:n=0', 'imp:n=3', 'imp:p=0.5',
-    'imp : n = 3', 'imp:n,p 2', 'IMP:N=1 IMP:P=4',
+    'imp : n = 3', 'imp:n,p 2', 'IMP:N=1 IMP:P=4', 'imp:n,p=0 imp:n=2',
+    'imp=3', 'imp:=1', 'imp:n,=1', 'importance 4', 'imp::n=2 imp:n=1',
+    'imp:p=0 imp:n=1 imp:p=2', 'imp:p=5 imp:n=0', 'unc:n=1', 'u1=3',
     'u=1 u=2', 'u =( 4 )', 'U=-3', 'u=2.0', 'u=x',
     'FILL=2(1 0 0)', 'TRCL=(1 2 3)U=4', 'mat=3 : 2',
     'trcl=(1 2 3) vol 1 2 3', 'fill=1 vol=7', 'u=3 7 8', ': 3', 'imp: n 2',
@@ -513,18 +507,8 @@ def edge_lattice_params(rng, deck):
 
 
 # ---------------------------------------------------------------------------
-# known-finding witness
+# corpus of minimised cases
 # ---------------------------------------------------------------------------
-
-WITNESS = ('C15 witness like_but_imp_max\n'
-           '1 1 -1.0 -1 imp:n=1\n'
-           '2 like 1 but imp:n=0 trcl=(5 0 0)\n'
-           '3 0 1 #2 -9 imp:n=1\n'
-           '4 0 9 imp:n=0\n'
-           '\n1 so 1\n9 so 20\n\nm1 1001 1\n')
-WITNESS_EXPANDED = WITNESS.replace('2 like 1 but imp:n=0 trcl=(5 0 0)',
-                                   '2 1 -1.0 -1 imp:n=0 trcl=(5 0 0)')
-
 
 _TAIL = ('\n1 so 1\n2 s 0 0 0 1.4\n5 s 0.4 0.2 0.1 0.5\n9 so 30\n\n'
          'tr3 0 6 0\n*tr4 0 -6 0 30 60 90 120 30 90 90 90 0\n'
@@ -537,6 +521,14 @@ _SHARED = ('10 1 -1.0 -1 imp:n=1\n'
            '41 3 -3.0 -5 u=2 imp:n=1\n42 0 5 u=2 imp:n=1\n'
            '90 0 -9 #10 #20 #11 #12 #13 #21 #22 imp:n=1\n91 0 9 imp:n=0\n')
 CORPUS = [
+    ('BUT IMP lowers the inherited importance, per particle (fixed by 0b05eba)',
+     '11 like 10 but imp:n=0 trcl=(6 0 0)\n12 LIKE 10 BUT IMP:N,P=2 TRCL=(12 0 0)\n'
+     '13 like 12 but imp:n=0 trcl=(-6 0 0)\n'
+     '21 like 20 but trcl=(0 0 -6) imp:p=3\n22 like 21 but imp:p=0 imp:n=0 trcl=(0 0 12)\n',
+     '11 1 -1.0 -1 imp:n=0 trcl=(6 0 0)\n12 1 -1.0 -1 imp:n=2 imp:p=2 trcl=(12 0 0)\n'
+     '13 1 -1.0 -1 imp:n=0 imp:p=2 trcl=(-6 0 0)\n'
+     '21 0 -2 fill=1 (0.1 0 0) imp:n=1 imp:p=3 trcl=(0 0 -6)\n'
+     '22 0 -2 fill=1 (0.1 0 0) imp:n=0 imp:p=0 trcl=(0 0 12)\n'),
     ('BUT MAT=0 makes a void copy (fixed by ac9102a)',
      '11 like 10 but mat=0 trcl=(6 0 0)\n12 LIKE 11 BUT TRCL=(12 0 0)\n'
      '13 like 12 but mat=2 rho=-2.0 trcl=(-6 0 0)\n'
@@ -588,17 +580,6 @@ def corpus_failures():
     return out
 
 
-def witness_fails():
-    a = impl.convert(WITNESS, keep_stdout=False)
-    b = impl.convert(WITNESS_EXPANDED, keep_stdout=False)
-    if not (a.ok and b.ok):
-        return True, f'{a} / {b}'
-    same = strip_header(a.text) == strip_header(b.text)
-    return not same, ('VOLU 2 present in the LIKE file: '
-                      + str('VOLU 2 ' in a.text) + ', in the expansion: '
-                      + str('VOLU 2 ' in b.text))
-
-
 # ---------------------------------------------------------------------------
 
 def run(res, tier, seed, proofs_ok):
@@ -620,16 +601,7 @@ def run(res, tier, seed, proofs_ok):
         'keywords, LAT, FILL arrays, unknown keywords, missing base); '
         'non-trivial = a deck with at least one LIKE card; distinct by text')
 
-    # ---- 1. known-finding witness ----
-    fails, detail = witness_fails()
-    if fails:
-        res.violation('impl-violation',
-                      'LIKE 1 BUT IMP:N=0 (base IMP:N=1) is not converted as '
-                      'its explicit expansion: ' + detail,
-                      {'input': {'deck': WITNESS,
-                                 'expanded': WITNESS_EXPANDED}},
-                      cls=KNOWN_CLASS, found_input=True)
-
+    # ---- 1. corpus of minimised cases (former findings included) ----
     for name, a_text, b_text, detail in corpus_failures():
         res.violation('impl-violation',
                       f'[corpus] {name}: the LIKE deck is not converted as '
@@ -663,12 +635,12 @@ def run(res, tier, seed, proofs_ok):
             and not voiding
         failures, obs = sweep_deck(res, deck, text, rng, do_points)
         n_pts_done += do_points
+        if do_points:
+            res.count('points-decks')
         for kind, what, cls in failures:
             if cls == 'skip':
                 res.count('points-skip')
                 continue
-            if cls:
-                res.count(f'known:{cls}:{kind}')
             res.violation('impl-violation', f'[{kind}] {what}',
                           {'input': {'deck': text,
                                      'expanded': gen.render(gen.expand(deck))},
